@@ -8,14 +8,14 @@ ALL = [f"C{n:02d}" for n in range(1, 21)]
 # property -> (technique, level text, level note, design ref)
 CLAIMED = {
     "C01": (
-        "table folding of regex byte classes vs ISO 32000-1 Tables 1-3, finite-domain evaluation of the _parse_main dispatch, scanner-FSM extraction with reference automaton, buffer-read classification, typestate initialisation dataflow, pairing of assembly keywords",
-        "Decides the structural necessary conditions of 'every conformant spelling reads back': lexical classes, escapes, dispatch, automaton shape, initialisation of scanner fields, balanced array/dict/proc assembly, and - completely - that no scanner reads ahead of the current byte or branches on the buffer length (buffer/offset independence). It does not decide the value computed for each token (number grammar, #xx, nesting depth): that part is value-level and is not claimed.",
+        "table folding of regex byte classes vs ISO 32000-1 Tables 1-3, finite-domain evaluation of the _parse_main dispatch, scanner-FSM extraction with reference automaton, buffer-read classification, typestate initialisation dataflow, pairing of assembly keywords; sibling agreement of the value keywords handled by the two object readers",
+        "Decides the structural necessary conditions of 'every conformant spelling reads back': lexical classes, escapes, dispatch, automaton shape, initialisation of scanner fields, balanced array/dict/proc assembly, and - completely - that no scanner reads ahead of the current byte or branches on the buffer length (buffer/offset independence). It does not decide the value computed for each token (number grammar, #xx, nesting depth): that part is value-level and is not claimed. Also decides that PDFStreamParser (object streams) converts the same keywords into values as PDFParser (null, R).",
         "Trusts CPython ast/re, the transcription of Tables 1-3 in spec/pdf_lexical.json and the reference automaton confirmed by reading. Known finding C01-R4 (odd hex digit) is pinned by the existing test-suite and therefore recorded, not repaired.",
         "DESIGN.md §5 C01",
     ),
     "C02": (
-        "CFG dominance / must-pass checks on read_xref_from and getobj, sibling-agreement dependence check on the two cross-reference-stream readers, raise-class check on the classic loader's failure exits, binding checks",
-        "Decides structural necessary conditions of xref resolution: newest-first collection (append dominates the descent into XRefStm then Prev), first hit wins in getobj and in the trailer loop, both readers of a cross-reference stream index entries with a counter carried across /Index ranges, every failure exit of the classic loader raises PDFNoValidXRef and its handler engages the body scan (fallback flag set before loading; stream data extended only in fallback mode), object-stream member index and entry-field slicing. Equality of answers across physical forms, EOL styles and buffer sizes is value/history level and not decided.",
+        "CFG dominance / must-pass checks on read_xref_from and getobj, sibling-agreement dependence check on the two cross-reference-stream readers, raise-class check on the classic loader's failure exits, binding checks; write-set inventory of the object caches",
+        "Decides structural necessary conditions of xref resolution: newest-first collection (append dominates the descent into XRefStm then Prev), first hit wins in getobj and in the trailer loop, both readers of a cross-reference stream index entries with a counter carried across /Index ranges, every failure exit of the classic loader raises PDFNoValidXRef and its handler engages the body scan (fallback flag set before loading; stream data extended only in fallback mode), object-stream member index and entry-field slicing. Equality of answers across physical forms, EOL styles and buffer sizes is value/history level and not decided. Also decides that the object caches are written only by the lookup that owns them, under the key looked up (an entry registered elsewhere would bypass the newest-first walk).",
         "Trusts CPython ast and the reading of ISO 32000-1 7.5.4-7.5.8 encoded in the rule.",
         "DESIGN.md §5 C02",
     ),
@@ -32,38 +32,38 @@ CLAIMED = {
         "DESIGN.md §5 C04",
     ),
     "C05": (
-        "arity/dispatch table check vs ISO 32000-1 Annex A, must-call ordering on handler CFGs, polynomial normal forms of the positioning kernels and pen-advance bindings, copy-completeness of state objects, pairing/restore checks on the form-XObject branch",
-        "Decides the structural necessary conditions of the text model: each text/graphics-state operator exists with the spec'd operand count and is only invoked with all operands; ', \", TD, Tj decompose as 9.4.2-9.4.3 prescribe; Td/TD/T*/Tm/BT/cm compute the spec formulas (polynomial identities); q/Q and TJ snapshots copy every state field; nested form execution uses a fresh interpreter, own/copied resources, balanced figure bracket and re-issues the caller's CTM; scale factors and parameter bindings of the pen advance are the spec's. Numeric glyph positions for arbitrary programs and font metrics are not decided.",
+        "arity/dispatch table check vs ISO 32000-1 Annex A, must-call ordering on handler CFGs, polynomial normal forms of the positioning kernels and pen-advance bindings, copy-completeness of state objects, pairing/restore checks on the form-XObject branch; truth-test lint on safe_float/safe_int results; width-table guard shared with C07",
+        "Decides the structural necessary conditions of the text model: each text/graphics-state operator exists with the spec'd operand count and is only invoked with all operands; ', \", TD, Tj decompose as 9.4.2-9.4.3 prescribe; Td/TD/T*/Tm/BT/cm compute the spec formulas (polynomial identities); q/Q and TJ snapshots copy every state field; nested form execution uses a fresh interpreter, own/copied resources, balanced figure bracket and re-issues the caller's CTM; scale factors and parameter bindings of the pen advance are the spec's. Numeric glyph positions for arbitrary programs and font metrics are not decided. Also decides that converted operands are rejected only when None (0 is a value) and that an explicit zero width in a width table wins over the default.",
         "Trusts the transcription of Annex A in spec/pdf_operators.json. Known finding C05-R6 (character spacing added before instead of after a glyph) is recorded, not repaired.",
         "DESIGN.md §5 C05",
     ),
     "C16": (
-        "arity table check, paint-flag table with delegation resolution, post-dominance of the path reset, symbolic evaluation of path construction (`re` normal form), write-set checks of colour/line-state operators, parameter binding from paint_path through LTLine/LTRect into LTCurve fields, saved-state completeness",
-        "Decides the structural necessary conditions of path painting: arities, (stroke, fill, even-odd) flags per operator, close-first for s/b/b*, current path cleared on all paths by every painting operator and n, `re` expansion, which graphics-state fields each colour/line operator writes, that every shape constructor receives line width, flags, both colours, path and dash of the state in force (followed down to the stored fields), the classification sets, that shape decisions read device-space points only, and which state q/Q saves. Transformed coordinates as numbers are not decided.",
+        "arity table check, paint-flag table with delegation resolution, post-dominance of the path reset, symbolic evaluation of path construction (`re` normal form), write-set checks of colour/line-state operators, parameter binding from paint_path through LTLine/LTRect into LTCurve fields, saved-state completeness; truth-test lint on converted operands; per-interpreter copy of the colour-space table",
+        "Decides the structural necessary conditions of path painting: arities, (stroke, fill, even-odd) flags per operator, close-first for s/b/b*, current path cleared on all paths by every painting operator and n, `re` expansion, which graphics-state fields each colour/line operator writes, that every shape constructor receives line width, flags, both colours, path and dash of the state in force (followed down to the stored fields), the classification sets, that shape decisions read device-space points only, and which state q/Q saves. Transformed coordinates as numbers are not decided. Also decides that `0 w` style operands are not rejected by truth tests and that the colour-space table is a per-interpreter copy.",
         "Trusts spec/pdf_operators.json. Known findings C16-R6 (current colour spaces not part of the q/Q snapshot) are recorded.",
         "DESIGN.md §5 C16",
     ),
     "C06": (
-        "ordering/precedence extraction, table folding of the Latin encoding table through the glyph list against Python's cp1252/mac_roman codecs (independent oracle), overlay-algorithm and copy-before-store checks, anchored-regex guard check, dispatch table of font subtypes, binding checks of width lookups",
-        "Decides structural necessary conditions for simple fonts: ToUnicode precedes the encoding and a missing mapping becomes (cid:N); WinAnsi/MacRoman columns equal the platform codecs except the documented deviations and every glyph name resolves; Differences overlay semantics on a copy; glyph-name hex parts validated over their whole length; subtype dispatch; Widths/FirstChar/MissingWidth/FontMatrix bindings. The AGL algorithm as a string function, the standard-14 metric tables (no oracle on this machine) and Type 1 header parsing are not decided.",
+        "ordering/precedence extraction, table folding of the Latin encoding table through the glyph list against Python's cp1252/mac_roman codecs (independent oracle), overlay-algorithm and copy-before-store checks, anchored-regex guard check, dispatch table of font subtypes, binding checks of width lookups; bfrange/bfchar expansion checks of the ToUnicode parser (shared with C07)",
+        "Decides structural necessary conditions for simple fonts: ToUnicode precedes the encoding and a missing mapping becomes (cid:N); WinAnsi/MacRoman columns equal the platform codecs except the documented deviations and every glyph name resolves; Differences overlay semantics on a copy; glyph-name hex parts validated over their whole length; subtype dispatch; Widths/FirstChar/MissingWidth/FontMatrix bindings. The AGL algorithm as a string function, the standard-14 metric tables (no oracle on this machine) and Type 1 header parsing are not decided. Also decides the inclusive expansion of ToUnicode bfrange entries.",
         "Trusts Python's cp1252 and mac_roman codecs and the documented deviations of ISO 32000-1 Annex D.",
         "DESIGN.md §5 C06",
     ),
     "C07": (
-        "dispatch/format extraction for the identity CMaps, size-agreement check of struct.unpack, begin/end pairing and chunk-size extraction in the CMap parser, dependence/inclusive-bound checks on every range expansion, binding checks of DW2/W2",
-        "Decides only the structural part, which is a minority of this property: identity CMap segmentation (width, byte order, writing mode, whole codes only), begin/end handling of the ToUnicode parser, index dependence and inclusive bounds of bfrange/cidrange/W/W2 expansions, DW2/W2 bindings. CJK code segmentation and Unicode values come from pickled data files, and agreement with platform codecs is value level: not decided.",
+        "dispatch/format extraction for the identity CMaps, size-agreement check of struct.unpack, begin/end pairing and chunk-size extraction in the CMap parser, dependence/inclusive-bound checks on every range expansion, binding checks of DW2/W2; alias analysis of the Type0 descendant dictionary (shared with C12-R5)",
+        "Decides only the structural part, which is a minority of this property: identity CMap segmentation (width, byte order, writing mode, whole codes only), begin/end handling of the ToUnicode parser, index dependence and inclusive bounds of bfrange/cidrange/W/W2 expansions, DW2/W2 bindings. CJK code segmentation and Unicode values come from pickled data files, and agreement with platform codecs is value level: not decided. Also decides that the descendant dictionary handed to the CID font is the font's own copy.",
         "Thin by design (DESIGN §6): most of the behaviour is data, not code.",
         "DESIGN.md §5 C07",
     ),
     "C08": (
-        "def-use flow of the partitions in LTLayoutContainer.analyze, typestate abstract interpretation of group_objects over all feasible paths of its loop body (three-valued branch evaluation), min/max normal form of the expanding add with a who-may-bypass inventory, must-pass-through of the line break, sort-key normal forms, ordering of numbering",
-        "Decides structural necessary conditions of content conservation: every partition reaches the final child list, every glyph is added to exactly one line exactly once and every line is yielded exactly once on all paths of the grouping loop, bounding boxes grow by min/max and only LTAnno bypasses that, every line gets its break and every line/box is analysed, lines are sorted top-to-bottom (right-to-left), boxes are numbered on both ordering paths, container text is the in-order concatenation. Termination of the heap loop of group_textboxes and that group_textlines never drops a non-empty line are arithmetic/history-level and not decided.",
+        "def-use flow of the partitions in LTLayoutContainer.analyze, typestate abstract interpretation of group_objects over all feasible paths of its loop body (three-valued branch evaluation), min/max normal form of the expanding add with a who-may-bypass inventory, must-pass-through of the line break, sort-key normal forms, ordering of numbering; second typestate pass over (halign, valign, kind of current line) for orientation purity; Plane membership write-sets (shared with C20)",
+        "Decides structural necessary conditions of content conservation: every partition reaches the final child list, every glyph is added to exactly one line exactly once and every line is yielded exactly once on all paths of the grouping loop, bounding boxes grow by min/max and only LTAnno bypasses that, every line gets its break and every line/box is analysed, lines are sorted top-to-bottom (right-to-left), boxes are numbered on both ordering paths, container text is the in-order concatenation. Termination of the heap loop of group_textboxes and that group_textlines never drops a non-empty line are arithmetic/history-level and not decided. Also decides that a glyph joins a horizontal (vertical) line only when horizontally (vertically) aligned with its predecessor, and that Plane.add/remove register/unregister on every path.",
         "Trusts CPython ast; the typestate abstraction tracks only `line` (none/some) and the add/yield events.",
         "DESIGN.md §5 C08",
     ),
     "C09": (
-        "normalised predicate extraction (comparison direction, commutative operands, polynomial difference) compared with the documented definitions, mirror-image (x<->y) sibling agreement of the horizontal/vertical variants, polynomial normal form of the ordering keys, dimension (homogeneity) analysis of every comparison / sum / min / max / sort key in the layout code",
-        "Decides that the grouping predicates are the documented ones (strictness, min vs max, which operand), that vertical variants mirror the horizontal ones, that ordering keys are top-to-bottom/left-to-right, and that every decision in the layout code compares quantities of equal degree in length with dimensionless parameters - which, with exact scaling by powers of two, is the argument for scale invariance. The grouping outcome on concrete arrangements (closure of the neighbour relation, reading order of real documents) is not decided.",
+        "normalised predicate extraction (comparison direction, commutative operands, polynomial difference) compared with the documented definitions, mirror-image (x<->y) sibling agreement of the horizontal/vertical variants, polynomial normal form of the ordering keys, dimension (homogeneity) analysis of every comparison / sum / min / max / sort key in the layout code; truth-test lint on the optional boxes_flow parameter",
+        "Decides that the grouping predicates are the documented ones (strictness, min vs max, which operand), that vertical variants mirror the horizontal ones, that ordering keys are top-to-bottom/left-to-right, and that every decision in the layout code compares quantities of equal degree in length with dimensionless parameters - which, with exact scaling by powers of two, is the argument for scale invariance. The grouping outcome on concrete arrangements (closure of the neighbour relation, reading order of real documents) is not decided. Also decides that boxes_flow is compared with None by identity wherever it selects a branch (0 is a documented value).",
         "Assumes exact float scaling by powers of two, coordinates below the INF sentinels, and that Plane.gridsize only affects bucketing (C20).",
         "DESIGN.md §5 C09",
     ),
@@ -74,26 +74,26 @@ CLAIMED = {
         "DESIGN.md §5 C10",
     ),
     "C11": (
-        "backward provenance (taint) analysis from every interpolation in XMLConverter writes, with escaper/numeric-format cleansing and a reviewed safe-expression table; sibling agreement of codec use; class-hierarchy-aware dispatch-order check; tag-balance check of literal output per branch; structural order checks on TextConverter",
-        "Decides structural necessary conditions: no document-controlled value reaches the XML output unescaped, every converter encodes with its codec on a binary sink, isinstance dispatch does not shadow subclasses and covers every item class, literal XML written per branch is balanced, the text converter renders children in order with one newline per text box and one form feed per page. It does not decide that the output characters equal the tree's text for every document, nor XML-1.0-forbidden control characters when stripcontrol is off.",
+        "backward provenance (taint) analysis from every interpolation in XMLConverter writes, with escaper/numeric-format cleansing and a reviewed safe-expression table; sibling agreement of codec use; class-hierarchy-aware dispatch-order check; tag-balance check of literal output per branch; structural order checks on TextConverter; table folding of the strip_control character class against the XML 1.0 Char production",
+        "Decides structural necessary conditions: no document-controlled value reaches the XML output unescaped, every converter encodes with its codec on a binary sink, isinstance dispatch does not shadow subclasses and covers every item class, literal XML written per branch is balanced, the text converter renders children in order with one newline per text box and one form feed per page. It does not decide that the output characters equal the tree's text for every document, nor XML-1.0-forbidden control characters when stripcontrol is off. Also decides that strip_control removes exactly the C0 controls XML 1.0 forbids.",
         "Trusts the source/sanitizer tables in rules/c15.py (make_prov) and the reviewed safe-expression table in rules/c11.py.",
         "DESIGN.md §5 C11",
     ),
     "C15": (
         "complete inventory of file-system call sites against a reviewed table, call-graph reachability for developer-only sites, backward provenance (taint) from every path argument with basename / realpath-prefix confinement recognised by CFG dominance, dominance of the unique-name loop over write-mode opens and a CFG must-pass check that every assignment of the returned name is followed by the existence test",
-        "Decides, relative to its source and sanitizer tables, that processing a document performs no file-system access other than the reviewed sites, that no document-controlled string reaches a path argument unconfined, and that image export never opens an existing file for writing. The claim is complete for the package's source (every call site is enumerated on each run).",
+        "Decides, relative to its source and sanitizer tables, that processing a document performs no file-system access other than the reviewed sites, that no document-controlled string reaches a path argument unconfined, and that image export never opens an existing file for writing. The claim is complete for the package's source (every call site is enumerated on each run). The confinement guard is accepted only when both compared paths are symlink-resolved (realpath).",
         "Trusts the FS-call table, the source/sanitizer tables and the call-graph resolution (fan-out over-approximates callers). Pickle loading of resource files inside the resource directory is trusted.",
         "DESIGN.md §5 C15",
     ),
     "C12": (
-        "effect analysis: complete inventory of module/class-level mutable state and of every function-level write to it (item stores, mutator calls, class/module attribute stores, global statements) against a reviewed allow-list; CFG dominance of copy-before-store on shared tables; constructor-site enumeration for mutators of shareable CMap objects; mutable-default scan; cache-path sibling agreement; flow-insensitive alias analysis of the target of every item store / mutator call against the document's parsed dictionaries and lists",
-        "Decides purity as absence of channels: no function writes process-wide state except two reviewed memo tables and the interning tables, shared encoding/colour-space tables are copied before any store, CMap mutators only run on freshly constructed maps, entry points construct their managers per call, caches store exactly what the uncached path returns under the caching flag, and no function writes into a dictionary or list that aliases a parsed (cached) document object. It does not decide bit-for-bit equality of outputs across histories.",
+        "effect analysis: complete inventory of module/class-level mutable state and of every function-level write to it (item stores, mutator calls, class/module attribute stores, global statements) against a reviewed allow-list; CFG dominance of copy-before-store on shared tables; constructor-site enumeration for mutators of shareable CMap objects; mutable-default scan; cache-path sibling agreement; flow-insensitive alias analysis of the target of every item store / mutator call against the document's parsed dictionaries and lists; dependence analysis of memo-table stores (value depends on the key only); cache write-set inventory (shared with C02)",
+        "Decides purity as absence of channels: no function writes process-wide state except two reviewed memo tables and the interning tables, shared encoding/colour-space tables are copied before any store, CMap mutators only run on freshly constructed maps, entry points construct their managers per call, caches store exactly what the uncached path returns under the caching flag, and no function writes into a dictionary or list that aliases a parsed (cached) document object. It does not decide bit-for-bit equality of outputs across histories. Also decides that the value stored in a process-wide memo table depends on the key alone and that object caches are only written by their owning lookup.",
         "Assumes deterministic dict order/float arithmetic and immutable resource files; aliasing through function arguments is tracked by annotation kinds and, for nested helpers, their call sites only.",
         "DESIGN.md §5 C12",
     ),
     "C13": (
-        "call-graph reachability from the three entry points; raise-class inventory; exception-flow analysis (partial-operation table driven by an intra-procedural kind analysis of document values, handlers subtracting by the class hierarchy, summaries to a fixpoint, strict-mode branches pruned); recursion analysis (SCCs of the resolved call graph minus edges discharged by a dominating visited-set guard or a structural-descent witness); amplification scan of loop bounds and allocation sizes",
-        "Decides, over everything reachable from extract_text / extract_pages / extract_text_to_fp, which internal exception classes may escape (by origin construct), which call cycles and reference-following loops lack a guard, and which loop bounds/allocation sizes are bare document integers. Today's tree has 87 such origins, each a genuine defect recorded in known_findings.jsonl (clusters confirmed with failing inputs); any new origin - a removed try, a narrowed except, int_value(x) replaced by x, a removed isinstance, a removed visited set, a new walker over Kids/Next/Prev - is a violation. A numeric work bound is not decided, and completeness is relative to the partial-operation and document-value tables.",
+        "call-graph reachability from the three entry points (typed receivers, name fan-out, function-valued fields, class/module aliases, factory tables, getattr reflection, address-taken references, rapid-type-analysis of implicitly invoked methods, property getters); raise-class inventory; exception-flow analysis (partial-operation table driven by an intra-procedural kind analysis of document values, handlers subtracting by the class hierarchy, summaries to a fixpoint, strict-mode branches pruned); recursion analysis (SCCs of the resolved call graph minus edges discharged by a dominating visited-set guard or a structural-descent witness); amplification scan of loop bounds and allocation sizes",
+        "Decides, over everything reachable from extract_text / extract_pages / extract_text_to_fp, which internal exception classes may escape (by origin construct), which call cycles and reference-following loops lack a guard, and which loop bounds/allocation sizes are bare document integers. Today's tree has 89 such origins, each a genuine defect recorded in known_findings.jsonl (clusters confirmed with failing inputs); any new origin - a removed try, a narrowed except, int_value(x) replaced by x, a removed isinstance, a removed visited set, a new walker over Kids/Next/Prev - is a violation. A numeric work bound is not decided, and completeness is relative to the partial-operation and document-value tables.",
         "Trusts the tables in sa/doctaint.py and sa/rules/c13_ops.py (which accessors yield document values, which operations are partial), parameter annotations Dict/Mapping/PDFStream as established types, and the call-graph resolution. The exception family is PSException subclasses plus AssertionError (the repository's fuzz contract).",
         "DESIGN.md §5 C13",
     ),
@@ -110,14 +110,14 @@ CLAIMED = {
         "DESIGN.md §5 C17",
     ),
     "C18": (
-        "dispatch extraction of the export chain with emptiness-guard check, unit checks of BMP row sizes and header layout, order/strip-length extraction of the inline-image scanner",
-        "Decides structural necessary conditions: export format dispatch never indexes an empty filter list; row byte counts for 1-bit/gray/RGB, 4-byte aligned line size, header fields, bottom-up rows; unique export names (shared with C15-R3); inline images: BI/ID context, data start one byte after ID, terminator + white space, exactly len(terminator)+1 bytes stripped, EI re-pushed. Pixel equality of the exported files is value level and not decided.",
+        "dispatch extraction of the export chain with emptiness-guard check, unit checks of BMP row sizes and header layout, order/strip-length extraction of the inline-image scanner; unique-name must-pass rule shared with C15; channel-order normal form of 24-bit BMP rows",
+        "Decides structural necessary conditions: export format dispatch never indexes an empty filter list; row byte counts for 1-bit/gray/RGB, 4-byte aligned line size, header fields, bottom-up rows; unique export names (shared with C15-R3); inline images: BI/ID context, data start one byte after ID, terminator + white space, exactly len(terminator)+1 bytes stripped, EI re-pushed. Pixel equality of the exported files is value level and not decided. Also decides that exported files never reuse an existing name (path-sensitive) and that 24-bit rows are re-ordered to B,G,R.",
         "Trusts the reading of the BMP format encoded in the rule.",
         "DESIGN.md §5 C18",
     ),
     "C19": (
-        "reconstruction of the MODE/WHITE/BLACK code sets from the BitParser.add calls and entry-by-entry comparison with ITU-T T.4/T.6, plus transcription-independent identities (prefix-freeness, Kraft sums exactly 255/256, shared extended make-up codes); mode-dispatch, parameter-binding and bit-order sibling checks; guard analysis of reference-line look-behind subscripts and sibling/dual agreement of the changing-element searches",
-        "Decides that the code tables are the standard's (any changed, dropped, duplicated or permuted code word is detected), that every mode class is dispatched, that Columns/EncodedByteAlign/BlackIs1 reach the decoder and only K=-1 is decoded, and that reader and writer share the MSB-first bit order. Of the reference-line logic it decides only structural necessary conditions (no look-behind at a negative index, the b1 searches of vertical and pass mode agree, the b2 search is the colour-dual, offset before clamp, pass keeps the colour); that decoded rows equal the encoded bitmap is value level and not decided.",
+        "reconstruction of the MODE/WHITE/BLACK code sets from the BitParser.add calls and entry-by-entry comparison with ITU-T T.4/T.6, plus transcription-independent identities (prefix-freeness, Kraft sums exactly 255/256, shared extended make-up codes); mode-dispatch, parameter-binding and bit-order sibling checks; guard analysis of reference-line look-behind subscripts and sibling/dual agreement of the changing-element searches; must-pass accumulation of run lengths in horizontal mode",
+        "Decides that the code tables are the standard's (any changed, dropped, duplicated or permuted code word is detected), that every mode class is dispatched, that Columns/EncodedByteAlign/BlackIs1 reach the decoder and only K=-1 is decoded, and that reader and writer share the MSB-first bit order. Of the reference-line logic it decides only structural necessary conditions (no look-behind at a negative index, the b1 searches of vertical and pass mode agree, the b2 search is the colour-dual, offset before clamp, pass keeps the colour); that decoded rows equal the encoded bitmap is value level and not decided. Also decides that every code word of a horizontal run is added to the run length (make-up codes accumulate) and that codes below 64 terminate the run.",
         "spec/ccitt_codes.json was generated from the repository at the pinned commit and validated by the Kraft/prefix identities and spot checks against T.4; the identities are an oracle independent of that file.",
         "DESIGN.md §5 C19",
     ),
